@@ -101,6 +101,12 @@ func extractChain(path, fn string) map[string]interface{} {
 	}
 	var prog []Ins
 	var temps []string
+	control := []map[string]string{}
+	odd := func(st ast.Stmt, what string) {
+		// outside the straight-line grammar: reported, the program is then not used by the caller
+		control = append(control, map[string]string{"stmt": fmt.Sprintf("%T", st), "what": what,
+			"line": strconv.Itoa(fset.Position(st.Pos()).Line)})
+	}
 	for _, st := range fd.Body.List {
 		switch v := st.(type) {
 		case *ast.DeclStmt: // var ( t0 = new(...) ... )
@@ -116,23 +122,31 @@ func extractChain(path, fn string) map[string]interface{} {
 		case *ast.ForStmt:
 			as, ok := v.Init.(*ast.AssignStmt)
 			if !ok || len(as.Rhs) != 1 {
-				fail("chain: unsupported loop init")
+				odd(st, "loop init")
+				continue
 			}
-			lo := intLit(as.Rhs[0])
 			be, ok := v.Cond.(*ast.BinaryExpr)
 			if !ok || be.Op != token.LSS {
-				fail("chain: unsupported loop condition")
+				odd(st, "loop condition")
+				continue
 			}
-			hi := intLit(be.Y)
 			if _, ok := v.Post.(*ast.IncDecStmt); !ok {
-				fail("chain: unsupported loop post statement")
+				odd(st, "loop post statement")
+				continue
 			}
 			if len(v.Body.List) != 1 {
-				fail("chain: loop body with %d statements", len(v.Body.List))
+				odd(st, "loop body")
+				continue
 			}
+			if _, ok := v.Body.List[0].(*ast.ExprStmt); !ok {
+				odd(st, "loop body")
+				continue
+			}
+			lo := intLit(as.Rhs[0])
+			hi := intLit(be.Y)
 			chainCall(v.Body.List[0], hi-lo, &prog)
 		default:
-			fail("chain: unsupported statement %T", st)
+			odd(st, "statement")
 		}
 	}
 	// declared operation counts from the header comment
@@ -151,7 +165,7 @@ func extractChain(path, fn string) map[string]interface{} {
 		}
 	}
 	return map[string]interface{}{"func": fn, "prog": prog, "temps": temps, "params": params,
-		"declared_squares": sq, "declared_multiplies": mu}
+		"declared_squares": sq, "declared_multiplies": mu, "control_flow": control}
 }
 
 // ---- complete formulas: `t := new(fiat.SM2Element).Op(a, b)`, `t.Op(a, b)`, `q.x.Set(x3)`, `return q`
@@ -177,6 +191,7 @@ func extractFormula(path, fn string) map[string]interface{} {
 		fail("method %s not found", fn)
 	}
 	var prog []Ins
+	control := []map[string]string{}
 	ops := map[string]string{"Mul": "mul", "Add": "add", "Sub": "sub", "Square": "sq", "Set": "set"}
 	emit := func(dst, name string, args []string) {
 		op, ok := ops[name]
@@ -219,6 +234,10 @@ func extractFormula(path, fn string) map[string]interface{} {
 			recv, name, args := formulaCall(call)
 			emit(exprName(recv), name, args)
 		case *ast.ReturnStmt:
+		case *ast.IfStmt, *ast.ForStmt, *ast.RangeStmt, *ast.SwitchStmt:
+			// not a straight-line formula any more: reported to the caller, which then does not use the
+			// program (the recorded executions still judge the function)
+			control = append(control, map[string]string{"stmt": fmt.Sprintf("%T", st), "line": strconv.Itoa(fset.Position(st.Pos()).Line)})
 		default:
 			fail("formula: unsupported statement %T", st)
 		}
@@ -229,7 +248,7 @@ func extractFormula(path, fn string) map[string]interface{} {
 			params = append(params, n.Name)
 		}
 	}
-	return map[string]interface{}{"func": fn, "prog": prog, "params": params}
+	return map[string]interface{}{"func": fn, "prog": prog, "params": params, "control_flow": control}
 }
 
 // scratchIsLocal reports, for a method of the GCM glue, whether the LAST argument of the call
